@@ -24,6 +24,12 @@
   (`parsePieces`); `!py` is modelled here only as a bare name (the result is the
   context object itself) — general `!py` results are covered at tree level.
 
+  Every object has a PERMANENT address here (`id(obj)` = index, cells are never freed). CPython only
+  promises unique ids among objects alive at the same time; `PypyrModel/FmtFree.lean` is the counter-model
+  with a free list, and `Props/C09.lean` (`memo_keeps_alive_sound`) shows that the repaired code (the memo
+  keeps every object it has an entry for alive, /repo 2cfa9de) never re-uses an address while the memo
+  lives, i.e. stays inside this model; `fmtH_memo_sound` is the soundness of the memo in it.
+
   Container cells carry a class tag (`0` = the builtin type; for sets `1` =
   `frozenset`; other numbers = subclasses such as ruamel's `CommentedMap`,
   numbered by the harness): the rebuilt cell has the SAME tag (`obj.__class__`).
